@@ -1,5 +1,4 @@
 from __future__ import annotations
-import re
 import enum
 import typing
 import structlog
@@ -40,9 +39,6 @@ def get_formatter(format: Format) -> typing.Callable[[str], str]:
         raise ValueError(f"Unknown format: {format}")
 
 
-def bool_to_int(expr: str) -> str:
-    # Only replace the boolean constants and not parts of variable names (e.g. 'is_true')
-    return re.sub(r"\btrue\b", "1", re.sub(r"\bfalse\b", "0", expr))
 
 
 class GotranCCodePrinter(C99CodePrinter):
@@ -52,6 +48,13 @@ class GotranCCodePrinter(C99CodePrinter):
 
     def _print_Float(self, flt):
         return self._print(str(float(flt)))
+
+    def _print_BooleanTrue(self, expr):
+        # Print the boolean constants as integers (a variable can be called 'true')
+        return "1"
+
+    def _print_BooleanFalse(self, expr):
+        return "0"
 
     def _print_Mod(self, expr):
         # Mod(a, b) = a - b*floor(a/b) has the sign of the divisor (like % in
@@ -74,7 +77,7 @@ class GotranCCodePrinter(C99CodePrinter):
 
             assert all_lsh_equal, "All assignments in Piecewise must have the same lhs"
 
-            if super()._print(arg[1]) == "true":
+            if arg[1] == sympy.true:
                 result = result[:-3]
                 result.append(f"{super()._print(arg[0].rhs)}")
             else:
@@ -83,7 +86,7 @@ class GotranCCodePrinter(C99CodePrinter):
             result.append(";")
             value = "".join(result)
         else:
-            value = bool_to_int(super()._print_Piecewise(expr))
+            value = super()._print_Piecewise(expr)
 
         return value
 
